@@ -12,6 +12,19 @@ CHECKS = {
          "Every (operation, width, operand pair) of the stated finite alphabet is pushed through Bitvector::*, BitvectorDomain::* and Expression::bytesize and compared with an independent P-Code reference; exhaustive for 1-byte operands, boundary-alphabet pairs for 2/4/8/16 bytes.",
          "Trusted: the reference semantics in mcx::refsem::ops (self-checked against native u8/i8 arithmetic and hand-derived golden vectors at start-up). Nothing outside the alphabet is covered.",
          "DESIGN.md §C01"),
+ "C05": (MC, "explicit-state breadth-first search over operation histories on the real MemRegion (stateright, cross-counted against mcx::bfs) against a reference cell store; all ordered pairs of reached regions for merge; re-seeded search from merge results",
+         "All operation sequences up to the depth bound over the action alphabet (add/insert/remove/merge_write_top/mark_interval/mark_all/offset shift, sizes 1,2,4,8, small offset window) for T = BitvectorDomain, DataDomain<BitvectorDomain> and Taint; invariants (no overlap, no Top cell, iter/get/get_unsized agree with the reference) in every state; merge judged on all ordered pairs of reached regions exactly as the statement says; stateright and mcx::bfs unique-state/transition counts must be equal.",
+         "Trusted: the reference cell store and the per-type value tables in shared/c05_model.rs. Bounded by depth, offset window and cell sizes.",
+         "DESIGN.md §C05"),
+ "C19": (MC, "exhaustive bounded enumeration of segment layouts x every address/size query against a byte-map reference",
+         "Every image of 1-3 disjoint segments (adjacent or with gaps, both list orders, all r/w flag combinations, both byte orders, contents over a 4-letter alphabet incl. NUL and invalid UTF-8) and all small bare-metal configurations; every address around the segments x read sizes 1,2,4,8, string reads, writeability/readability, ro-data pointers, interval queries.",
+         "Trusted: the byte-map oracle in c19.rs. Cases the statement leaves open (segments that are neither readable nor writable, interval end conventions, strings in writable segments) are accepted both ways and listed as assumptions.",
+         "DESIGN.md §C19"),
+ "C20": (MC, "exhaustive bounded enumeration of format strings (all conversion specifications; all token sequences up to a length bound) against an independent tokenizer and the documented type table",
+         "All 2025 conversion specifications of the supported grammar in 8 literal/escape contexts under 2 size tables, and all sequences of <=4 (thorough 5) tokens over literals that look like flags/digits/length modifiers, the %% escape and 12 representative specifications.",
+         "Trusted: the tokenizer and type table in c20.rs (the generator's token list is cross-checked against the independent tokenizer on every case).",
+         "DESIGN.md §C20"),
+
  "C10": (MC, "exhaustive bounded program-space enumeration (expression trees, def sequences x terminators, CFG skeletons x slot alphabets) with differential execution by an independent reference interpreter",
          "Every expression tree up to depth 2 (plus deeper templates) through the real trivial-operation rewriter under every valuation of a value alphabet; every single-block program (def sequences x terminators x observers) and every CFG-skeleton program (slot alphabets x condition variants) through the real normalize_basic/normalize_optimize, both versions run by an independent interpreter from every initial state x call environment; traces and call/return/dead-end snapshots must agree.",
          "Trusted: props::ir_interp + mcx::refsem::ops (independent of the repository's evaluation code). Bounded by the alphabets; loops are cut by block fuel (prefix comparison). P-Code temporaries are assumed dead across calls (a call ends the machine instruction).",
